@@ -17,7 +17,7 @@ CONFIGS = [
 
 
 def setup(src):
-    e2v.build_driver("qcow", ["theories/Qcow2/QcowIndex.vo"], ["qcow_model"])
+    e2v.build_driver("qcow", ["theories/Qcow2/QcowIndex.vo", "theories/Qcow2/QcowWriter.vo"], ["qcow_model"])
     e2v.build_iotrace()
 
 
@@ -95,6 +95,14 @@ class Qcow:
 
     def block(self, blk):
         return self.d[self.map[blk][0]:self.map[blk][0] + self.cs] if blk in self.map else None
+
+
+def _big_stack():
+    import resource
+    try:
+        resource.setrlimit(resource.RLIMIT_STACK, (resource.RLIM_INFINITY, resource.RLIM_INFINITY))
+    except Exception:
+        pass
 
 
 def metadata_blocks(fs):
@@ -207,6 +215,37 @@ def one_case(src, mexe, idx, seed, tier):
                 problems.append("qcow2: block %d found at L1 %d L2 %d refcount (%d,%d); model says %s" % (b, q.map[b][1], q.map[b][2], c // per, c % per, o))
                 break
         stat["index_samples"] = len(sample)
+        # ---- the writer's table cache: the L1 table and every L2 table of the real file vs the extracted write_all
+        if q.map and not q.problems:
+            obs_l1, obs_tab = {}, {}
+            for l1 in range(q.l1_size):
+                off = struct.unpack_from(">Q", q.d, q.l1_off + 8 * l1)[0] & q.MASK
+                if off:
+                    obs_l1[l1] = off
+                    obs_tab[off] = {l2: struct.unpack_from(">Q", q.d, off + 8 * l2)[0] & q.MASK for l2 in range(q.l2n)
+                                    if struct.unpack_from(">Q", q.d, off + 8 * l2)[0] & q.MASK}
+            items = " ".join("%d:%d:%d" % (b, q.map[b][0], q.map[b][0] + q.cs) for b in sorted(q.map))
+            first = obs_l1[min(obs_l1)]
+            cap = min(512, q.l1_size)
+            mo2 = subprocess.run([mexe], input=("WR %d %d %d %s\n" % (q.l2n, cap, first, items)).encode(), stdout=subprocess.PIPE, timeout=600,
+                                 preexec_fn=_big_stack).stdout.decode().split("\n")
+            m_l1, m_tab = None, {}
+            for ln in mo2:
+                w = ln.split()
+                if w[:1] == ["L1"]:
+                    m_l1 = {int(x.split(":")[0]): int(x.split(":")[1]) for x in w[1:]}
+                elif w[:1] == ["T"]:
+                    m_tab[int(w[1])] = {int(x.split(":")[0]): int(x.split(":")[1]) for x in w[2:]}
+            stat["writer_tables"] = len(obs_tab)
+            if m_l1 != obs_l1:
+                dk = sorted(k for k in set(m_l1 or {}) | set(obs_l1) if (m_l1 or {}).get(k) != obs_l1.get(k))
+                problems.append("qcow2 writer: L1 table differs from the model at indices %s (file %s, model %s)" % (dk[:4], [obs_l1.get(k) for k in dk[:4]], [(m_l1 or {}).get(k) for k in dk[:4]]))
+            elif m_tab != obs_tab:
+                dk = sorted(k for k in set(m_tab) | set(obs_tab) if m_tab.get(k) != obs_tab.get(k))
+                o0 = dk[0]
+                de = sorted(k for k in set(m_tab.get(o0, {})) | set(obs_tab.get(o0, {})) if m_tab.get(o0, {}).get(k) != obs_tab.get(o0, {}).get(k))
+                problems.append("qcow2 writer: %d L2 tables differ from the model, first the table at %d, entries %s (file %s, model %s)" % (
+                    len(dk), o0, de[:4], [obs_tab.get(o0, {}).get(k) for k in de[:4]], [m_tab.get(o0, {}).get(k) for k in de[:4]]))
     except (FormatError, struct.error, IndexError) as ex:
         problems.append("qcow2 image unreadable: %s" % ex)
     # ---- qcow2 -> raw through e2image's own reader equals the direct raw image
@@ -238,7 +277,7 @@ def run(res, replay=None):
     e2v.build_iotrace()
     pr = e2v.coq_property("C19")
     res.add_proof(pr)
-    mexe = e2v.build_driver("qcow", ["theories/Qcow2/QcowIndex.vo"], ["qcow_model"])
+    mexe = e2v.build_driver("qcow", ["theories/Qcow2/QcowIndex.vo", "theories/Qcow2/QcowWriter.vo"], ["qcow_model"])
     res.cov["trusted_base"] = e2v.TRUSTED_COMMON + [
         "props/c19.py Qcow: the check's own reader of the qcow2 format (header, L1/L2 tables, refcount table and blocks)",
         "props/c19.py metadata_blocks + lib/extfmt.py: which blocks count as metadata (fixed tables, directory, extent, indirect, xattr, symlink, journal and special-inode blocks)",
@@ -251,7 +290,7 @@ def run(res, replay=None):
     with concurrent.futures.ThreadPoolExecutor(6) as ex:
         outs = list(ex.map(lambda i: one_case(src, mexe, i, seed, tier), idxs))
     bad = []
-    tot = {"metadata_blocks": 0, "qcow_mapped": 0, "index_samples": 0}
+    tot = {"metadata_blocks": 0, "qcow_mapped": 0, "index_samples": 0, "writer_tables": 0}
     for recipe, problems, stat in outs:
         res.case(json.dumps(recipe), True)
         for k in tot:
@@ -265,7 +304,9 @@ def run(res, replay=None):
     res.cov["oracle"] = {"evaluations": len(outs) * 5, "failures": len(bad),
                          "statement": "raw, qcow2 and -ra images carry every metadata block of the source byte for byte; the qcow2 file decodes without overlap, every used cluster with refcount 1; qcow2->raw equals the direct raw image; e2fsck -fn and dumpe2fs agree on image and source; -ra keeps every file; the source is opened read-only and unchanged"}
     res.cov["rule"] = "6 feature sets (1k/2k/4k blocks, meta_bg, quota, ext2/3/4) x 2 populations x fill levels; sizes crossing many L2 tables and refcount blocks; non-trivial: every case"
+    res.cov["correspondence"]["writer_compared"] = "the L1 table and every L2 table (offset and all non-zero entries) of each real qcow2 file vs the extracted write_all run on the file's own (block, data offset, data offset + cluster) list with the cache capacity min(512, l1_size)"
     res.add_obligation("index model = positions in the real qcow2 files", not any("model says" in x for rcp, p in bad for x in p))
+    res.add_obligation("writer model (L2 table cache) = L1 and L2 tables of the real qcow2 files", not any("qcow2 writer:" in x for rcp, p in bad for x in p))
     for recipe, problems in bad[:3]:
         res.violation("oracle", {"recipe": recipe, "problems": problems[:6]}, signature="c19:" + hashlib.sha256(json.dumps(recipe).encode()).hexdigest()[:12])
     if not pr["ok"] and not bad:
